@@ -17,7 +17,7 @@ from . import AnalysisError
 from .model import CallSite, Func, Program
 
 MAX_DEPTH = 7
-LOOP_ROUNDS = 4
+LOOP_ROUNDS = 3
 
 
 class V(tuple):
@@ -223,9 +223,20 @@ class Interp:
         oa, ob = st_out.store.get(a.ref), st_out.store.get(b.ref)
         if oa is None or ob is None:
             return V(tag, a.ref if oa is not None else b.ref)
-        addr = ("join", a.ref, b.ref)
+        def bases(r):
+            return r[1] if isinstance(r, tuple) and len(r) == 2 and r[0] == "join" else frozenset([r])
+
+        addr = ("join", bases(a.ref) | bases(b.ref))
+        if addr == a.ref or addr == b.ref:
+            keep = a.ref if addr == a.ref else b.ref
+            other = ob if keep == a.ref else oa
+            st_out.store[keep] = self.join_obj(st_out.store[keep], other, st_out)
+            return V(tag, keep)
         if addr not in st_out.store:
+            st_out.store[addr] = Obj("unknown")  # placeholder against cycles
             st_out.store[addr] = self.join_obj(oa, ob, st_out)
+        else:
+            st_out.store[addr] = self.join_obj(st_out.store[addr], self.join_obj(oa, ob, st_out), st_out)
         return V(tag, addr)
 
     def join_obj(self, oa: Obj, ob: Obj, st_out: State) -> Obj:
